@@ -214,7 +214,8 @@ def run(ctx, widen=False):
         for fn, call in [("uniquify", lambda: E.uniquify(l, CTX)), ("cumsum", lambda: E.cumulative_sum(l, CTX)), ("deltas", lambda: E.deltas(l, CTX)),
                          ("uninterleave", lambda: E.uninterleave(list(l), CTX)), ("prefixes", lambda: E.divisors_or_prefixes(l, CTX)),
                          ("group", lambda: E.group_consecutive(list(l), CTX)), ("counts", lambda: E.counts(l, CTX)), ("sort", lambda: E.vy_sort(l, CTX)),
-                         ("sum", lambda: E.vy_sum(l, CTX)), ("product", lambda: E.product(l, CTX)), ("reverse", lambda: E.reverse(l, CTX))]:
+                         ("sum", lambda: E.vy_sum(l, CTX)), ("product", lambda: E.product(l, CTX)), ("reverse", lambda: E.reverse(l, CTX)),
+                         ("gradeup", lambda: E.grade_up(list(l), CTX)), ("gradedown", lambda: E.grade_down(list(l), CTX))]:
             lines.append(f"ls\t{fn}|{S(l)}|"); exp.append(safe(call))
         for k in (1, 2, 3):
             lines.append(f"ls\twrap|{S(l)}|{k}"); exp.append(safe(lambda: E.wrap(list(l), k, CTX)))
